@@ -84,6 +84,8 @@ TraceCli ==
             ELSE Cl(e.exit = 0, "C15.cli_succeeds")
                  \cup Cl(e.file_at_expected, "C15.cli_writes_to_requested_target")
                  \cup Cl(e.bytes_equal_library_build, "C06.cli_output_complete")
+                 \* the reference is the library build of the settings in effect for this format (its override block applied)
+                 \cup Cl(e.bytes_equal_library_build, "C13.cli_builds_effective_settings_of_packaged_format")
                  \cup Cl(files = 1, "C15.cli_no_stray_files")
                  \cup Cl(e.created_line # "", "C15.cli_reports_created_package"))
             \* spec -> code: the terminal state TLC computed for this argv (Cli.tla, exported behaviours) vs the projection of the real run
